@@ -9,7 +9,8 @@
 (*        <<"leaf", "dstr", n>> / <<"leaf", "bigint", n>> are equal values *)
 (*        held by distinct objects (one object per n)                      *)
 (*   <<"obj", cls, <<kids>>>>   class instance; cls "Z"/"A"/"B" = arity    *)
-(*        0/1/2 with fields <<>>, <<"x">>, <<"l","r">>                     *)
+(*        0/1/2 with fields <<>>, <<"x">>, <<"l","_r">> (a field name may   *)
+(*        begin with an underscore)                                        *)
 (*   <<"list", <<kids>>>>, <<"tuple", <<kids>>>>,                          *)
 (*   <<"dict", <<<<key, kid>>, ...>>>>                                     *)
 (*   <<"shared", k>>     the k-th shared structure (one object, wherever   *)
@@ -21,7 +22,7 @@
 (***************************************************************************)
 EXTENDS Integers, Sequences, FiniteSets, TLC
 
-Fields(cls) == CASE cls = "Z" -> <<>> [] cls \in {"A", "A2"} -> <<"x">> [] cls = "B" -> <<"l", "r">>   \* A2: another class with A's fields
+Fields(cls) == CASE cls = "Z" -> <<>> [] cls \in {"A", "A2"} -> <<"x">> [] cls = "B" -> <<"l", "_r">>   \* A2: another class with A's fields
 
 Shared(k) ==
     CASE k = 1 -> <<"obj", "A", << <<"leaf", "none">> >>>>
